@@ -39,7 +39,7 @@ def gen_file(rnd, medium, length=None, unique=None, maxname=12):
         dt = rnd.choice([0, 0xFF])
     name = gen_name(rnd, medium, maxname)
     if unique is not None:
-        name = (name[:max(0, min(len(name), 6))] + "%d" % unique) if medium == "disk" else name
+        name = ("%d%s" % (unique, name))[:maxname] if medium == "disk" else name
     ext = {"ml": "BIN", "basic": "BAS", "ascii": "BAS", "data": "DAT", "text": "TXT"}[kind][:rnd.choice([3, 3, 3, 2, 1, 0])] if medium == "disk" else ""
     return {"name": name, "ext": ext, "type": t, "dtype": dt, "load": rnd.choice(ADDR + [rnd.randrange(65536)]),
             "exec": rnd.choice(ADDR + [rnd.randrange(65536)]), "data": content(rnd, length).hex(), "kind": kind}
